@@ -18,6 +18,14 @@
 (*   obffed : bytes        the prescribed obfuscated form fed to decode     *)
 (*   obfenc : ok, bytes    obfuscation.encode(data, key)                    *)
 (*   obfdec : ok, bytes    obfuscation.decode(fed)                          *)
+(*   into   : ok, prefix, bytes, zok, inflated   the contents of a buffer    *)
+(*            that held `prefix` after msg.serialize_into(buffer)           *)
+(* for a history case (histcase: cls): ONE message object is sent several   *)
+(* times, over one or two connections, and changed between the sends        *)
+(*   hsend  : ok, obf, v, bytes, zok, inflated   v = the value of the object *)
+(*            at this send (input), bytes = what the connection wrote        *)
+(*   hrecv  : ok, v, cls, got   what a receiving connection decoded from the *)
+(*            bytes of the send of value v                                   *)
 (* for a giant case (gcase: cls, rest, rep, elem, K - see Codec, RepPieces)  *)
 (*   gfed / gser / genc : [ok,] bytes, zok, sum   a compressed frame and the *)
 (*            summary of inflate(payload) (Codec!SummaryOK)                  *)
@@ -58,7 +66,7 @@ TInit ==
   /\ tid \in 1..Len(Traces)
   /\ l = 2
   /\ LET c == Traces[tid][1] IN
-       /\ c.ev \in {"case", "obfcase", "gcase", "conncase"}
+       /\ c.ev \in {"case", "obfcase", "gcase", "conncase", "histcase"}
        /\ CASE c.ev = "case" ->
                  LET m == Messages[c.cls]
                      b == Body(m, c.v)
@@ -67,6 +75,7 @@ TInit ==
             [] c.ev = "gcase" ->
                  LET p == RepPieces(Messages[c.cls], c.rest, c.rep, c.elem)
                  IN body = <<p.pre, p.unit, p.post>> /\ wire = <<>> /\ pend = {}
+            [] c.ev = "histcase" -> body = <<>> /\ wire = <<>> /\ pend = {}
             [] c.ev = "conncase" ->
                  body = <<>> /\ wire = <<>> /\ pend = 1..Len(c.msgs)
   /\ last = [prop |-> "init", good |-> TRUE]
@@ -124,6 +133,29 @@ TObfDec ==
   /\ Show("obf", Rec.bytes = body)
   /\ Consume /\ UNCHANGED wire
 
+\* serialising into a buffer appends exactly one wire form and leaves what the buffer held untouched
+TInto ==
+  /\ IsEv("into") /\ C.ev = "case" /\ Rec.ok
+  /\ Show("bytes", /\ Len(Rec.bytes) >= Len(Rec.prefix)
+                    /\ SubSeq(Rec.bytes, 1, Len(Rec.prefix)) = Rec.prefix
+                    /\ ValidWire(SubSeq(Rec.bytes, Len(Rec.prefix) + 1, Len(Rec.bytes)), Rec.zok, Rec.inflated))
+  /\ Consume /\ UNCHANGED wire
+
+\* ---- history cases: what is written is the wire form of the value AT THE TIME of the send ------
+THSend ==
+  /\ IsEv("hsend") /\ C.ev = "histcase" /\ Rec.ok
+  /\ IF Rec.obf
+     THEN Show("obf", ~M.compressed /\ Len(Rec.bytes) >= 4 /\ Deobf(Rec.bytes) = Frame(M, Rec.v))
+     ELSE Show("bytes", IF M.compressed
+                        THEN HeaderOK(M, Rec.bytes) /\ Rec.zok /\ Rec.inflated = Body(M, Rec.v)
+                        ELSE Rec.bytes = Frame(M, Rec.v))
+  /\ Consume /\ UNCHANGED wire
+
+THRecv ==
+  /\ IsEv("hrecv") /\ C.ev = "histcase" /\ Rec.ok
+  /\ Show("decode", Rec.cls = C.cls /\ Rec.got = Expected(M, Rec.v))
+  /\ Consume /\ UNCHANGED wire
+
 \* ---- giant cases ---------------------------------------------------------------
 Pieces == [pre |-> body[1], unit |-> body[2], post |-> body[3]]
 ValidGiant(F, zok, sum) == HeaderOK(M, F) /\ zok /\ SummaryOK(sum, Pieces, C.K)
@@ -174,7 +206,7 @@ TRecvDone ==
 \* the code under test raised, or a pinned class does not exist any more
 TExc ==
   /\ l <= Len(T) /\ Rec.ev \in {"ser", "enc", "encobf", "deser", "obfenc", "obfdec", "missing",
-                                "gser", "genc", "gdeser", "stream", "recv", "send"} /\ ~Rec.ok
+                                "gser", "genc", "gdeser", "stream", "recv", "send", "into", "hsend", "hrecv"} /\ ~Rec.ok
   /\ Show("exception", FALSE)
   /\ Consume /\ UNCHANGED wire
 
@@ -186,7 +218,8 @@ Done ==
 
 Finished == l = Len(T) + 2 /\ UNCHANGED tvars
 
-TNext == TFed \/ TSer \/ TEnc \/ TEncObf \/ TDeser \/ TObfFed \/ TObfEnc \/ TObfDec
+TNext == TFed \/ TSer \/ TInto \/ TEnc \/ TEncObf \/ TDeser \/ TObfFed \/ TObfEnc \/ TObfDec
+           \/ THSend \/ THRecv
            \/ TGFed \/ TGSer \/ TGEnc \/ TGDeser \/ TStream \/ TRecv \/ TRecvDone \/ TExc \/ Done \/ Finished
 
 TSpec == TInit /\ [][TNext]_tvars
